@@ -758,10 +758,11 @@ def spec_root_paths(row):
         # the root must be flagged on EVERY exit on which the callback may have mutated it (normal return and
         # unwinding out of the callback alike); whether the barrier runs before or after the callback is not behaviour
         if mutating and pre["phase"] == "Mark" and out.post["root_needs_trace"] != 1:
-            probs.append("%s%s: the arena is left (%s exit) with the root not flagged for re-tracing while marking: "
+            # (an unwinding exit counts for GC safety as much as a normal one: the arena of mutate_root survives a
+            # caught panic, and what the callback stored before panicking is reachable from the root)
+            probs.append("%s: the arena is left (%s exit) with the root not flagged for re-tracing while marking: "
                          "pointers stored into the root by the callback are never traced" % (
-                             "[unwind] " if out.kind == "unwind" else "", pre["path"],
-                             "unwinding" if out.kind == "unwind" else "normal"))
+                             pre["path"], "unwinding" if out.kind == "unwind" else "normal"))
         if out.post["root_needs_trace"] == 0 and cbs[0][2] == 1:
             probs.append("root flag cleared after the callback")
     return probs
